@@ -140,6 +140,31 @@ def scalar_check(case):
     return Res(vv, o=(small,), tr=3)
 
 
+# ------------------------------------------------------------------ integer lists with elements of every magnitude
+ELEMS = ["0", "7", "384", "99999", "999999", "1000000", "1000001", "12345678", "2147483648", "30000000000", "123456789012345", "9007199254740992"]
+
+
+def intlist_cases(tier, seed):
+    out = [(a, b) for a in ELEMS for b in ELEMS]
+    return out
+
+
+def intlist_check(case):
+    a, b = case
+    d = synth.proc_scratch()
+    seen = {}
+    ntr = 0
+    for val in ("%s,%s" % (a, b), "%s,%s,%s" % (a, b, a), "0,%s,%s,1" % (b, a)):
+        big = any(int(x) >= 1000000 for x in val.split(","))
+        vv, m1 = _roundtrip("snsApLfSy=384,0,1\nchunkBounds=%s\n~list=%s\n" % (val, val), d, "intlist:large-elements" if big else "intlist")
+        ntr += 3
+        for k, m in vv:
+            seen.setdefault(k, m)
+        if m1 is not None and m1.get("chunkBounds") != [float(x) for x in val.split(",")]:
+            seen.setdefault("parse:intlist", "%r parsed as %r" % (val, m1.get("chunkBounds")))
+    return Res(list(seen.items()), o=(len(a) > 6 or len(b) > 6,), tr=ntr)
+
+
 # ------------------------------------------------------------------ derived quantities
 def derived_cases(tier, seed):
     out = []
@@ -293,6 +318,7 @@ CHECK = {
     "clauses": [
         Clause("grammar", "all values over the alphabet", cases=grammar_cases, check=grammar_check),
         Clause("scalars", "decimal scalars mant x 10^e written positionally", cases=scalar_cases, check=scalar_check),
+        Clause("intlists", "integer lists with elements from 0 to 2^53", cases=intlist_cases, check=intlist_check),
         Clause("derived", "derived quantities for every kind/stream/gain pair/count", cases=derived_cases, check=derived_check),
         Clause("fixtures", "shipped .meta files round-trip", cases=fixture_cases, check=fixture_check),
     ],
